@@ -18,11 +18,16 @@ class NetlistSimplifyMixin:
             print(string % subset)
 
         subset_list = list(subset)
+        # Orientation (1 or -1) of each element relative to the first one.
+        signs = self._relative_signs(subset_list, series)
 
         if add:
             total = expr(0)
             for name in subset_list:
-                total += expr(self.elements[name].cpt.args[0])
+                value = expr(self.elements[name].cpt.args[0])
+                if self.elements[name].type in ('V', 'I'):
+                    value = signs[name] * value
+                total += value
         else:
             total = expr(0)
             for name in subset_list:
@@ -39,10 +44,13 @@ class NetlistSimplifyMixin:
             # Parallel capacitors, series inductors: the common value
             # (established by _check_ic), not the sum.
             ic = expr(elt.cpt.args[1])
-        elif elt.cpt.has_ic:
+        elif any(self.elements[name1].cpt.has_ic for name1 in subset_list):
+            # Series capacitors, parallel inductors: the initial conditions
+            # add, signed by orientation (an unspecified one is zero).
             ic = expr(0)
             for name1 in subset_list:
-                ic += expr(self.elements[name1].cpt.args[1])
+                if self.elements[name1].cpt.has_ic:
+                    ic += signs[name1] * expr(self.elements[name1].cpt.args[1])
 
         if ic is not None:
             if explain:
@@ -71,7 +79,36 @@ class NetlistSimplifyMixin:
 
         return True
 
-    def _check_ic(self, subset):
+    def _relative_signs(self, names, series):
+        """Return dict: orientation (1 or -1) of each named component
+        relative to names[0], across the common node pair (parallel) or
+        along the chain (series)."""
+
+        node_map = self.node_map
+        group = self.cg.in_series(names[0]) if series else names
+        ends = dict((name, [node_map[n] for n in
+                            self.elements[name].node_names[0:2]])
+                    for name in group)
+        first = names[0]
+        if not series:
+            return dict((name, 1 if ends[name][0] == ends[first][0] else -1)
+                        for name in names)
+        signs = {first: 1}
+        for k in (1, 0):
+            # Walk away from the minus (k = 1) then the plus (k = 0) end.
+            node = ends[first][k]
+            while True:
+                found = [name for name in ends
+                         if name not in signs and node in ends[name]]
+                if len(found) != 1:
+                    break
+                name = found[0]
+                same = ends[name][1 - k] == node
+                node = ends[name][k if same else 1 - k]
+                signs[name] = 1 if same else -1
+        return signs
+
+    def _check_ic(self, subset, series=False):
 
         subset = subset.copy()
         name = subset.pop()
@@ -83,11 +120,13 @@ class NetlistSimplifyMixin:
                 warn('Incompatible initial conditions for %s and %s' %
                      (name, name1))
                 okay = False
-        if not has_ic:
+        if not has_ic or not okay:
             return okay
         ic = self.elements[name].cpt.args[1]
+        signs = self._relative_signs([name] + list(subset), series)
         for name1 in subset:
-            if self.elements[name1].cpt.args[1] != ic:
+            if self.elements[name1].cpt.args[1] != ic or \
+               (signs[name1] < 0 and expr(ic) != 0):
                 warn('Incompatible initial conditions for %s and %s' %
                      (name, name1))
                 okay = False
@@ -106,7 +145,7 @@ class NetlistSimplifyMixin:
                 if k == 'I':
                     warn('Netlist has current sources in series: %s' % subset)
                 elif k in ('R', 'NR', 'L', 'V', 'Z'):
-                    if k == 'L' and not self._check_ic(subset):
+                    if k == 'L' and not self._check_ic(subset, True):
                         continue
                     changed |= self._do_simplify_combine('Can add in series: %s',
                                                          subset, net, explain, True, True)
